@@ -26,8 +26,8 @@ LEVEL = "model_checking"
 RULE = ("schedules: for each of 8 scenarios (first parse of classes with pending forward references - module level and "
         "function-local; first parse of mutually recursive classes from both ends; conversions racing a registration in "
         "the shared converter registry; first calls of a decorated function with forward-referenced types; concurrent "
-        "decoration of one function) every interleaving of 2 (quick) / 3 (thorough) threads with at most 1 / 2 "
-        "preemptions at line granularity of the instrumented functions; state = one schedule (choice sequence), "
+        "decoration of one function) every interleaving of 2 threads with at most 1 preemption (quick); of 2 threads with at "
+        "most 2 preemptions and of 3 threads with at most 1 preemption (thorough), at line granularity of the instrumented functions; state = one schedule (choice sequence), "
         "transitions = scheduling points; every schedule with at least one context switch inside the instrumented code "
         "is non-trivial")
 ASSUMPTIONS = [
@@ -216,25 +216,34 @@ def solo_outcomes(name, nthreads):
     return out
 
 
+# (threads, preemption bound, parts) explored completely per tier.  3 threads with 2 preemptions would be ~10^6 schedules
+# per scenario at ~25 ms each (a fresh module and fresh threads per schedule): not affordable, and not claimed.
+CONFIGS = {"quick": [(2, 1, 2)], "thorough": [(2, 2, 16), (3, 1, 4)]}
+
+
 def bounds(tier):
-    return dict(scenarios=list(SCENARIOS), threads=3 if tier == "thorough" else 2, preemption_bound=2 if tier == "thorough" else 1,
+    return dict(scenarios=list(SCENARIOS), threads_and_preemption_bounds=[(n, b) for n, b, _ in CONFIGS[tier]],
                 granularity="source line of the instrumented functions", instrumented_functions=len(instrumented()))
 
 
-PARTS = 8
-MAXT = False
-
-
 def shards(tier):
-    parts = PARTS if tier == "thorough" else 2
-    return [(name, k, parts) for name in SCENARIOS for k in range(parts)]
+    return [(name, k, parts, n, b) for n, b, parts in CONFIGS[tier] for name in SCENARIOS for k in range(parts)]
+
+
+def _rle(choices):
+    """a schedule as run lengths: [[choice, count], ...]"""
+    out = []
+    for c in choices:
+        if out and out[-1][0] == c:
+            out[-1][1] += 1
+        else:
+            out.append([c, 1])
+    return out
 
 
 def run_shard(shard, tier):
-    name, k, parts = shard
+    name, k, parts, nthreads, bound = shard
     acc = Acc()
-    nthreads = 3 if tier == "thorough" else 2
-    bound = 2 if tier == "thorough" else 1
     src, calls, after = SCENARIOS[name]
     if name == "registry-race":
         order = [0, 2, 1] if nthreads == 3 else [0, 2]       # the registering thread always takes part
@@ -298,23 +307,23 @@ def run_shard(shard, tier):
                 fp = f"C20|{name}|{kind}"
                 acc.violation(fp, f"scenario {name}, threads {[calls[t] for t in order]}, schedule {ex.choices} "
                                   f"({switches} switches, {ex.preemptions_before(len(ex.points))} preemptions): {msg}",
-                              _script(name, tier, ex.choices))
+                              _script(name, nthreads, ex.choices))
         elif acc.states % 53 == 0:
-            acc.sample(dict(scenario=name, schedule=ex.choices, points=len(ex.points), switches=switches))
+            acc.sample(dict(scenario=name, threads=nthreads, schedule_run_lengths=_rle(ex.choices), points=len(ex.points), switches=switches))
 
     n, maxp, capped = e3.explore(make_bodies, instrumented(), bound, check, part=(k, parts))
-    acc.extra[f"schedules:{name}"] += n
-    acc.extra[f"max_points_per_execution:{name}"] = max(acc.extra.get(f"max_points_per_execution:{name}", 0), maxp)
+    acc.extra[f"schedules:{name}:threads={nthreads},preemptions<={bound}"] += n
+    acc.extra[f"max_points_per_execution:{name}:threads={nthreads}"] = max(acc.extra.get(f"max_points_per_execution:{name}:threads={nthreads}", 0), maxp)
     if capped:
         acc.caps.append(f"schedule cap hit in {name}")
     return acc
 
 
-def _script(name, tier, choices):
+def _script(name, nthreads, choices):
     return "\n".join([
         "import sys", "sys.path.insert(0, '/verif')", "from utmc.props import c20", "from utmc import e3",
-        f"name, tier, choices = {name!r}, {tier!r}, {choices!r}",
-        "src, calls, after = c20.SCENARIOS[name]", "nthreads = 3 if tier == 'thorough' else 2",
+        f"name, nthreads, choices = {name!r}, {nthreads!r}, {choices!r}",
+        "src, calls, after = c20.SCENARIOS[name]",
         "order = ([0, 2, 1] if nthreads == 3 else [0, 2]) if name == 'registry-race' else list(range(nthreads))",
         "solo = c20.solo_outcomes(name, 3)", "state = {}",
         "def make_bodies():", "    g = c20.RegistryGuard(); g.__enter__(); mod = c20.fresh(src); state['g'] = g",
